@@ -21,6 +21,7 @@ def dispatch (cmd : String) (args : List Sexp) : Option String :=
   | "transform" => Driver.Minify.transform args
   | "pycore.run" => Driver.PyCore.runCmd args
   | "pycore.runO" => Driver.PyCore.runOCmd args
+  | "pycore.scopestable" => Driver.PyCore.scopeStableCmd args
   | "hoist.place" => Driver.Rename.hoistPlace args
   | "rename.assign" => Driver.Rename.assignCmd args
   | "ministring" => Driver.Strings.ministring args
